@@ -2,7 +2,7 @@
 import ast
 import re
 
-from sa import pyflow
+from sa import pattern as pat, pyflow
 from sa.consteval import Evaluator
 from sa.loader import AnalysisError, enclosing_function
 
@@ -296,6 +296,76 @@ def rule_r3(repo, run):
     s = gm.seg(hd)
     run.check(R, "generate.GenFunctions.has_default_args:suffix", "default_arg_suffix[ndefault]" in s and "ndefault += 1" in s,
               "default-argument variants take default_arg_suffix[ndefault] with ndefault advanced per variant", gm.loc(hd))
+    # structural form: inside the loop that clones, the suffix list is indexed by a counter that advances
+    # once per clone (same block as the clone), not by the position of the parameter
+    for lp in [n for n in ast.walk(hd) if isinstance(n, ast.For)]:
+        clones = [st for st in lp.body if pat.has(st, "MV_N = MV_O.clone()") and isinstance(st, ast.Assign)]
+        if not clones:
+            continue
+        loopvars = set(x.id for x in ast.walk(lp.target) if isinstance(x, ast.Name))
+        subs = pat.find(lp, "MV_F.function_suffix = MV_L[MV_I]")
+        run.check(R, "generate.GenFunctions.has_default_args:suffix-index", len(subs) == 1,
+                  "each default-argument variant must take its suffix from the suffix list", gm.loc(lp))
+        for node, env in subs:
+            idx = env["I"]
+            incs = [st for st in lp.body if isinstance(st, ast.AugAssign) and pyflow.is_name(st.target, idx)
+                    and isinstance(st.op, ast.Add) and isinstance(st.value, ast.Constant) and st.value.value == 1]
+            ok = idx not in loopvars and len(incs) == 1
+            run.check(R, "generate.GenFunctions.has_default_args:suffix-counter", ok,
+                      "the suffix index `%s` must be a counter advanced exactly once per generated variant "
+                      "(parameters without a default do not produce a variant, so the parameter position is "
+                      "not a variant number)" % idx, gm.loc(node), sample=dict(index=idx, loop_vars=sorted(loopvars)))
+            after = pat.find(hd, "MV_G.function_suffix = %s[MV_J]" % env["L"])
+            run.check(R, "generate.GenFunctions.has_default_args:suffix-original",
+                      any(e["J"] == idx for n2, e in after if n2 is not node),
+                      "the original function (all arguments) takes the next suffix of the same counter", gm.loc(hd))
+    # composition: only the first suffix-assigning pass may overwrite; every later pass works on functions
+    # that may already carry a suffix and must extend it (or yield to an explicit one)
+    order = []
+    for c in sorted([c for c in ast.walk(f) if isinstance(c, ast.Call)], key=lambda c: (c.lineno, c.col_offset)):
+        d = pyflow.call_name(c) or ""
+        if d.startswith("self.") and d.count(".") == 1 and d[5:] not in order:
+            order.append(d[5:])
+    cls = gm.cls("GenFunctions")
+    meths = {n.name: n for n in cls.body if isinstance(n, ast.FunctionDef)}
+
+    def suffix_sites(name, seen):
+        if name in seen or name not in meths:
+            return []
+        seen.add(name)
+        out = [(name, n, e) for n, e in pat.find(meths[name], "MV_X.function_suffix = MV_V")]
+        for c in ast.walk(meths[name]):
+            if isinstance(c, ast.Call):
+                d = pyflow.call_name(c) or ""
+                if d.startswith("self.") and d.count(".") == 1:
+                    out += suffix_sites(d[5:], seen)
+        return out
+    first = None
+    nsites = 0
+    for name in order:
+        sites = suffix_sites(name, set())
+        if not sites:
+            continue
+        if first is None:
+            first = name
+            continue
+        for mname, node, env in sites:
+            nsites += 1
+            tgt = ast.unparse(node.targets[0])
+            reads = [x for x in ast.walk(node.value) if isinstance(x, ast.Attribute) and x.attr == "function_suffix"
+                     and (ast.unparse(x) == tgt or ast.unparse(x).endswith(".fmtdict.function_suffix"))]
+            guarded = any("inlocal" in gm.seg(t) and "function_suffix" in gm.seg(t)
+                          for t, pol in pyflow.dominating_tests(node, stop=meths[mname]))
+            run.check(R, "generate.GenFunctions.%s:suffix-composition[%s]" % (mname, re.sub(r"\s+", "", gm.seg(node.targets[0]))),
+                      bool(reads) or guarded,
+                      "`%s` replaces a suffix that an earlier pass (%s, overload numbering) may have set: variants "
+                      "of different overloads get the same name; the pass must append to the existing suffix"
+                      % (gm.seg(node), first), gm.loc(node),
+                      sample=dict(pass_=mname, first_pass=first, stmt=gm.seg(node)))
+    run.check(R, "generate.GenFunctions.define_function_suffix:first-pass", first == "has_default_args",
+              "the first suffix-assigning pass is %s (expected has_default_args, the only one allowed to overwrite)" % first,
+              gm.loc(f))
+    run.floor(R, "suffix assignments in later passes", nsites, 4)
     # template function: three suffix sources
     tf = gm.func("GenFunctions.template_function")
     srcs = [gm.seg(n.value) for n in ast.walk(tf) if isinstance(n, ast.Assign)
@@ -325,6 +395,16 @@ def rule_r4(repo, run):
                   "generic table must collect the function nodes themselves", wf.loc(r), sample=dict(table=tab, key=key))
         run.check(R, "wrapf.Wrapf.wrap_function_impl:%s.key" % tab, "F_name_generic" in key,
                   "generic tables must be keyed by F_name_generic", wf.loc(r))
+        # module-level generics of plain functions: the interface name is the key, and the specifics
+        # (F_name_impl) live in the module under their scoped names - the key needs the same scope
+        conds = [(wf.seg(t), pol) for t, pol in pyflow.dominating_tests(r, stop=impl)]
+        plain = tab == "f_function_generic" and ("is_ctor", False) in conds and ("cls", False) in conds
+        if plain:
+            kf = set(x.attr for x in ast.walk(r.args[0]) if isinstance(x, ast.Attribute))
+            run.check(R, "wrapf.Wrapf.wrap_function_impl:%s.key-scope" % tab, "F_name_scope" in kf,
+                      "the generic interface of a namespace-level function is registered without F_name_scope (%s): "
+                      "with flattened namespaces generics of different namespaces, or of a namespace and the "
+                      "library, are merged into one interface" % key, wf.loc(r), sample=dict(key=key, path=conds))
     dg = wf.func("Wrapf.dump_generic_interfaces")
     s = wf.seg(dg)
     run.check(R, "wrapf.Wrapf.dump_generic_interfaces:specifics",
